@@ -1432,12 +1432,15 @@ class Engine:
             norm = normalise_callee(callee)
             dty = self.place_ty(fr, dest) if dest is not None else None
             mdl = self.find_model(norm)
+            r = NotImplemented
+            args = None
             if mdl is not None:
                 args = [self.operand(fr, a) for a in argops]
                 ctx = CallCtx(callee, norm, dty, fr, [self.operand_ty(fr, a) for a in argops], ret_bb)
-                self.models_used.add(mdl[1])
                 r = mdl[0](self, args, ctx)
-            else:
+                if r is not NotImplemented:
+                    self.models_used.add(mdl[1])
+            if r is NotImplemented:
                 if ret_bb is None and PANIC_CALLEES.search(norm):
                     msg = None
                     try:
@@ -1447,7 +1450,8 @@ class Engine:
                     except Exception:
                         pass
                     raise PathEnd('panic', (fr.fn.name, norm, msg))
-                args = [self.operand(fr, a) for a in argops]
+                if args is None:
+                    args = [self.operand(fr, a) for a in argops]
                 if any(rx.search(norm) for rx in self.havoc):
                     f, subst = None, None
                     hav = True
